@@ -710,6 +710,61 @@ Proof.
   cbn [length seq filter_list filter]. destruct m; cbn [length]; rewrite (IH (S s)); reflexivity.
 Qed.
 
+(* ---- the row-level statement: which original rows arrive, and where ---- *)
+Lemma nth_map_seq : forall (g : nat -> bool) (n i : nat), (i < n)%nat -> nth i (map g (seq 0 n)) false = g i.
+Proof.
+  intros g n i Hi.
+  rewrite (nth_indep _ false (g 0%nat)) by (rewrite map_length, seq_length; exact Hi).
+  rewrite map_nth. rewrite seq_nth by exact Hi. reflexivity.
+Qed.
+
+Lemma kept_indices_map : forall (g : nat -> bool) (n : nat),
+  kept_indices (map g (seq 0 n)) = filter g (seq 0 n).
+Proof.
+  intros g n. rewrite kept_indices_filter, map_length, seq_length.
+  apply filter_ext_in. intros i Hin. apply in_seq in Hin. apply nth_map_seq. lia.
+Qed.
+
+Lemma existsb_false_filter : forall (g : nat -> bool) (l : list nat),
+  existsb (fun x : bool => x) (map g l) = false -> filter g l = [].
+Proof.
+  intros g l. induction l as [| x l IH]; intro H; [reflexivity |].
+  cbn [map existsb filter] in *. apply orb_false_iff in H as [H1 H2]. rewrite H1. apply IH. exact H2.
+Qed.
+
+(* the original row indices that must arrive: at or after the merge point and
+   satisfying the clause, in batch order *)
+Definition wanted (sel : option sexpr) (b : batch) (merge : Z) : list nat :=
+  filter (fun i => ts_ge b merge i && sat sel b i)%bool (seq 0 (b_rows b)).
+
+(* MAIN THEOREM, row form: the subscriber receives a batch iff some row is
+   wanted; the batch has one row per wanted index, and its k-th row carries, in
+   every column, the cell of the k-th wanted original row. *)
+Theorem live_rows_exact : forall sel b merge,
+  wf_batch b = true -> ts_col_ok b = true -> clause_ok sel b ->
+  match apply (from_sql sel) b merge with
+  | Some fb => b_rows fb = length (wanted sel b merge) /\ wanted sel b merge <> [] /\
+               forall name k, cell fb name k =
+                              match nth_error (wanted sel b merge) k with
+                              | Some j => cell b name j
+                              | None => None
+                              end
+  | None => wanted sel b merge = []
+  end.
+Proof.
+  intros sel b merge Hwf Hts Hok. rewrite (live_exact sel b merge Hwf Hts Hok).
+  unfold spec_apply, wanted.
+  pose proof (kept_indices_map (fun i => ts_ge b merge i && sat sel b i)%bool (b_rows b)) as Hk.
+  fold (keep_mask sel b merge) in Hk.
+  destruct (existsb (fun x : bool => x) (keep_mask sel b merge)) eqn:He.
+  - rewrite <- Hk. split; [| split].
+    + cbn [filter_batch b_rows]. apply count_true_kept.
+    + intro Hnil. apply (existsb_count _ He). rewrite count_true_kept, Hnil. reflexivity.
+    + intros name k. apply filter_batch_cells; [exact Hwf |].
+      unfold keep_mask. rewrite map_length, seq_length. reflexivity.
+  - apply existsb_false_filter. exact He.
+Qed.
+
 (* ------------------------------------------------------------------ *)
 (* Topic filters                                                        *)
 (* ------------------------------------------------------------------ *)
